@@ -133,6 +133,8 @@ def run(ctx, spec):
         nfr = int(2 * rng.integers(1, 40))
         nsub = int(rng.integers(1, 6))
         slopes = np.tile(np.array([s, -s] * (nfr // 2)), (2, nsub, 1))
+        if rng.random() < 0.5:          # static offsets differing between sub-apertures do not change any temporal variance
+            slopes = slopes + s * (2.0 ** rng.integers(0, 6, (2, nsub, 1)))
         ctx.case("slopes", key=("sl", s, d, nfr, nsub, lam))
         r0e = pure_call(ctx, "r0_from_slopes", ac.r0_from_slopes, slopes, lam, d)
         rel(ctx, "slope_variance_from_r0(r0_from_slopes)", pure_call(ctx, "slope_variance_from_r0", ac.slope_variance_from_r0, r0e, lam, d), s * s, 1e-10, "slopes_r0:inverse", {"s": s, "d": d, "lambda": lam})
